@@ -18,11 +18,11 @@ for f in sys.argv[1:]:
 
 out = []
 for m, r in sorted(rows.items()):
-    mm = re.search(r"wt-(C\d+)([bc]?)/MUTANTS/m(\d)", m)
+    mm = re.search(r"wt-(C\d+)([bcd]?)/MUTANTS/m(\d)", m)
     ms = re.search(r"seeded/(C\d+)-(w\d)m(\d)$", m)
     if mm:
         pid, wave, k = mm.group(1), mm.group(2), mm.group(3)
-        name = f"{pid}-{ {'': 'w1', 'b': 'w2', 'c': 'w3'}[wave] }m{k}"
+        name = f"{pid}-{ {'': 'w1', 'b': 'w2', 'c': 'w3', 'd': 'w5'}[wave] }m{k}"
     elif ms:
         pid, k = ms.group(1), ms.group(3)
         name = f"{pid}-{ms.group(2)}m{k}"
